@@ -274,6 +274,137 @@ theorem igmp_roundtrip (h : Query) (wf : h.WF) (cks : Nat) (hc : cks < 65536) (r
   simp [Query.fromSlice, Query.toBytes, e, e3, list4_eta group h2]
   omega
 
+/-! ## Ipv6Header -/
+
+theorem ip6_layout (h : Ip6) (wf : h.WF) (f : Field) (hf : f ∈ ipv6) :
+    extract f h.toBytes = h.get f.name := by
+  rw [Ip6.toBytes_arith h wf]
+  obtain ⟨h1, h2, h3, h4, h5, h6, h7⟩ := wf
+  simp only [ipv6, List.mem_cons, List.mem_nil_iff, or_false] at hf
+  rcases hf with rfl | rfl | rfl | rfl | rfl | rfl | rfl | rfl
+  case inr.inr.inr.inr.inr.inr.inl =>
+    show extract ⟨"src", 8, 0, 8 * 16⟩ _ = _
+    rw [extract_whole_aux]; simp [spanVal, Ip6.get, arr_toNat]
+  case inr.inr.inr.inr.inr.inr.inr =>
+    show extract ⟨"dst", 24, 0, 8 * 16⟩ _ = _
+    rw [extract_whole_aux]; simp [spanVal, Ip6.get, arr_toNat]
+  all_goals (simp [extract, Field.nBytes, Field.low, spanVal, Ip6.get]; omega)
+
+/-- the DSCP / ECN split of the traffic class inside the encoded header. -/
+theorem ip6_layout_ds (h : Ip6) (wf : h.WF) :
+    extract ⟨"dscp", 0, 4, 6⟩ h.toBytes = Ip6.dscp h.trafficClass ∧
+    extract ⟨"ecn", 1, 2, 2⟩ h.toBytes = Ip6.ecn h.trafficClass := by
+  rw [Ip6.toBytes_arith h wf]
+  obtain ⟨h1, h2, h3, h4, h5, h6, h7⟩ := wf
+  constructor <;> simp [extract, Field.nBytes, Field.low, spanVal, Ip6.dscp, Ip6.ecn] <;> omega
+
+theorem ip6_set_wf (h : Ip6) (wf : h.WF) (f : Field) (hf : f ∈ ipv6) (v : Nat)
+    (hv : v < 2 ^ f.width) : (h.set f.name v).WF := by
+  obtain ⟨h1, h2, h3, h4, h5, h6, h7⟩ := wf
+  simp only [ipv6, List.mem_cons, List.mem_nil_iff, or_false] at hf
+  rcases hf with rfl | rfl | rfl | rfl | rfl | rfl | rfl | rfl <;>
+    simp [Ip6.set, Ip6.WF] at hv ⊢ <;> omega
+
+theorem ip6_field_isolated (h : Ip6) (wf : h.WF) (f : Field) (hf : f ∈ ipv6)
+    (hs : f.name ∈ Ip6.settable) (v : Nat) (hv : v < 2 ^ f.width) :
+    (h.set f.name v).toBytes.length = h.toBytes.length ∧
+    extract f (h.set f.name v).toBytes = v ∧
+    ∀ g ∈ ipv6, g ≠ f → extract g (h.set f.name v).toBytes = extract g h.toBytes := by
+  have wf' := ip6_set_wf h wf f hf v hv
+  refine ⟨by simp [Ip6.toBytes], ?_, ?_⟩
+  · rw [ip6_layout _ wf' f hf]
+    simp only [ipv6, List.mem_cons, List.mem_nil_iff, or_false] at hf
+    rcases hf with rfl | rfl | rfl | rfl | rfl | rfl | rfl | rfl <;>
+      simp [Ip6.set, Ip6.get, Ip6.settable] at hv hs ⊢
+  · intro g hg hne
+    rw [ip6_layout _ wf' g hg, ip6_layout _ wf g hg]
+    simp only [ipv6, List.mem_cons, List.mem_nil_iff, or_false] at hf hg
+    rcases hf with rfl | rfl | rfl | rfl | rfl | rfl | rfl | rfl <;>
+      rcases hg with rfl | rfl | rfl | rfl | rfl | rfl | rfl | rfl <;>
+      first | exact absurd rfl hne | simp [Ip6.set, Ip6.get, Ip6.settable] at hs ⊢
+
+/-- `dscp()` / `ecn()` read their bits of the traffic class and are in range; `set_dscp` /
+    `set_ecn` with in-range values rewrite exactly their own bits. -/
+theorem ip6_traffic_class_isolated (tc : Nat) (ht : tc < 256) (f : Field) (hf : f ∈ trafficClass) :
+    Ip6.dscp tc = extract ⟨"dscp", 0, 0, 6⟩ [u8 tc] ∧ Ip6.ecn tc = extract ⟨"ecn", 0, 6, 2⟩ [u8 tc] ∧
+    Ip6.dscp tc < 2 ^ 6 ∧ Ip6.ecn tc < 2 ^ 2 ∧
+    (∀ v, v < 2 ^ 6 → Ip6.setDscp tc v < 256 ∧
+      extract f [u8 (Ip6.setDscp tc v)] = if f.name = "dscp" then v else extract f [u8 tc]) ∧
+    (∀ v, v < 2 ^ 2 → Ip6.setEcn tc v < 256 ∧
+      extract f [u8 (Ip6.setEcn tc v)] = if f.name = "ecn" then v else extract f [u8 tc]) := by
+  have e1 : ∀ v, Ip6.setDscp tc v = tc % 4 + v % 64 * 4 := by
+    intro v; unfold Ip6.setDscp
+    rw [lor_eq_add' 2 _ _ (by omega) (by omega)]; omega
+  have e2 : ∀ v, Ip6.setEcn tc v = tc / 4 * 4 + v % 4 := by
+    intro v; unfold Ip6.setEcn
+    rw [lor_eq_add 2 _ _ (by omega) (by omega)]
+  simp only [trafficClass, List.mem_cons, List.mem_nil_iff, or_false] at hf
+  refine ⟨?_, ?_, ?_, ?_, ?_, ?_⟩
+  · simp [extract, Field.nBytes, Field.low, spanVal, Ip6.dscp] <;> omega
+  · simp [extract, Field.nBytes, Field.low, spanVal, Ip6.ecn] <;> omega
+  · unfold Ip6.dscp; omega
+  · unfold Ip6.ecn; omega
+  · intro v hv; rw [e1]
+    rcases hf with rfl | rfl <;> simp [extract, Field.nBytes, Field.low, spanVal] <;> omega
+  · intro v hv; rw [e2]
+    rcases hf with rfl | rfl <;> simp [extract, Field.nBytes, Field.low, spanVal] <;> omega
+
+theorem ip6_decode_in_range (b : Bytes) (h : Ip6) (r : Bytes)
+    (hd : Ip6.fromSlice b = .ok (h, r)) : h.WF := by
+  have := bAt_lt b 0; have := bAt_lt b 1; have := bAt_lt b 2; have := bAt_lt b 3
+  have := be16_lt b 4; have := bAt_lt b 6; have := bAt_lt b 7
+  unfold Ip6.fromSlice at hd
+  split at hd
+  · cases hd
+  · rename_i hl
+    simp only at hd
+    split at hd
+    · cases hd
+    · cases hd
+      simp only [Ip6.WF, tc_or_aux _ _ (bAt_lt b 1)]
+      refine ⟨by omega, by omega, by omega, by omega, by omega, ?_, ?_⟩ <;>
+        exact sub_length _ _ _ (by omega)
+
+theorem ip6_decode_layout (b : Bytes) (h : Ip6) (r : Bytes)
+    (hd : Ip6.fromSlice b = .ok (h, r)) (f : Field) (hf : f ∈ ipv6) :
+    extract f b = h.get f.name := by
+  have := bAt_lt b 0; have := bAt_lt b 1; have := bAt_lt b 2; have := bAt_lt b 3
+  have := bAt_lt b 4; have := bAt_lt b 5; have := bAt_lt b 6; have := bAt_lt b 7
+  unfold Ip6.fromSlice at hd
+  split at hd
+  · cases hd
+  · simp only at hd
+    split at hd
+    · cases hd
+    · rename_i hv
+      cases hd
+      simp only [ipv6, List.mem_cons, List.mem_nil_iff, or_false] at hf
+      rcases hf with rfl | rfl | rfl | rfl | rfl | rfl | rfl | rfl
+      case inr.inr.inr.inr.inr.inr.inl =>
+        show extract ⟨"src", 8, 0, 8 * 16⟩ _ = _
+        rw [extract_whole_aux]; simp [spanVal, Ip6.get, bAt_sub_aux]
+      case inr.inr.inr.inr.inr.inr.inr =>
+        show extract ⟨"dst", 24, 0, 8 * 16⟩ _ = _
+        rw [extract_whole_aux]; simp [spanVal, Ip6.get, bAt_sub_aux]
+      all_goals
+        (simp [extract, Field.nBytes, Field.low, spanVal, Ip6.get, be16, tc_or_aux _ _ (bAt_lt b 1)]
+         omega)
+
+theorem ip6_roundtrip (h : Ip6) (wf : h.WF) (rest : Bytes) :
+    Ip6.fromSlice (h.toBytes ++ rest) = .ok (h, rest) := by
+  rw [Ip6.toBytes_arith h wf]
+  obtain ⟨h1, h2, h3, h4, h5, h6, h7⟩ := wf
+  cases h with | mk tc fl pl nh hop src dst =>
+  simp only at h1 h2 h3 h4 h5 h6 h7
+  have t : (96 + tc / 16) * 16 % 256 ||| (tc * 16 + fl / 65536) % 256 / 16 = tc := by
+    rw [tc_or_aux _ _ (by omega)]; omega
+  have v : 6 = (96 + tc / 16) % 256 / 16 := by omega
+  simp [Ip6.fromSlice, be16, sub, t, ← v, list16_eta src h6, list16_eta dst h7, h7,
+    List.take_left' h7, List.drop_left' h7]
+  split
+  · omega
+  · simp; omega
+
 /-! ## non-vacuity -/
 
 example : Vlan.WF ⟨5, true, 0xABC, 0x8100⟩ := by decide
